@@ -25,7 +25,7 @@ ASSUMPTIONS = ["lattices are dyadic so the closed-box predicate is decidable exa
 L5 = [-3.0, -0.5, 0.0, 2.0, 7.25]
 RB = [-2.0, 0.0, 1.5, 3.0]
 PV = [-3.0, -2.25, -2.0, -1.75, -0.25, 0.0, 0.25, 1.25, 1.5, 1.75, 2.75, 3.0, 3.25, 4.0]
-FORMS = ["1d", "2d", "2dF", "view", "int", "extra", "0d"]
+FORMS = ["1d", "2d", "2dF", "view", "int", "int_e", "series", "extra", "0d"]
 SREG = [[0.0, 10.0, -2.0, -1.0], [-4.0, -4.0, 1.0, 3.0], [1024.0, 1024.5, -8.0, 8.0], [0.0, 0.0, 0.0, 0.0]]
 MV = [-3.0, -1.0, 0.0, 2.0, float("nan")]
 
@@ -168,6 +168,12 @@ def run(case, rec):
             ea = ea[keep].astype(np.int64)
             na = na[keep].astype(np.int64)
             want = want[keep]
+        if form == "int_e":
+            keep = [i for i, p in enumerate(pts) if p[0] == int(p[0])]
+            ea, na, want = ea[keep].astype(np.int64), na[keep], want[keep]
+        if form == "series":
+            import pandas as pd
+            ea, na = pd.Series(ea, index=np.arange(ea.size)[::-1]), pd.Series(na, index=np.arange(na.size)[::-1])
         if form in ("2d", "2dF", "view", "extra"):
             ea, na, want = ea.reshape(14, 14), na.reshape(14, 14), want.reshape(14, 14)
         if form == "2dF":
@@ -177,18 +183,19 @@ def run(case, rec):
             big_e[::2, 1::2] = ea; big_n[::2, 1::2] = na
             ea, na = big_e[::2, 1::2], big_n[::2, 1::2]
         coords = (ea, na) if form != "extra" else (ea, na, np.full(ea.shape, 1e9))
-        before = (ea.tobytes(), na.tobytes())
+        tb = lambda a: np.asarray(a).tobytes()
+        before = (tb(ea), tb(na))
         got = call(rec, vd.inside, coords, case["region"])
         if raised(got):
             return rec.check(False, "inside raised %r" % (got,))
         got = np.asarray(got)
         rec.check(got.dtype == bool, "inside must return booleans")
-        rec.check(got.shape == ea.shape, "inside: output shape %s != input shape %s" % (got.shape, ea.shape))
+        rec.check(got.shape == np.asarray(ea).shape, "inside: output shape %s != input shape %s" % (got.shape, np.asarray(ea).shape))
         if got.shape == want.shape:
             diff = np.argwhere(got != want)
             rec.check(diff.size == 0, "inside differs from the closed-box predicate at %s: points %s region %r"
-                      % (diff[:3].tolist(), [(float(ea[tuple(i)]), float(na[tuple(i)])) for i in diff[:3]], case["region"]))
-        rec.check((ea.tobytes(), na.tobytes()) == before, "inside modified its input")
+                      % (diff[:3].tolist(), [(float(np.asarray(ea)[tuple(i)]), float(np.asarray(na)[tuple(i)])) for i in diff[:3]], case["region"]))
+        rec.check((tb(ea), tb(na)) == before, "inside modified its input")
         rec.cls("inside/%s/%s" % (form, "degenerate" if w == e or s == n else "box"))
         rec.count("points_tested", int(want.size))
         return
